@@ -281,6 +281,10 @@ func (u *Unit) modSets(fr *Frame, li *loopInfo) {
 					markStore(x.Addr)
 				case *ssa.MapUpdate:
 					li.modAll = true
+				case *ssa.Next:
+					if rg, ok := x.Iter.(*ssa.Range); ok {
+						li.modCells[u.rangeCell(rg)] = true
+					}
 				case ssa.CallInstruction:
 					if _, isDefer := x.(*ssa.Defer); isDefer {
 						continue
@@ -686,6 +690,35 @@ func (u *Unit) step(fr *Frame, st *State, ins ssa.Instruction) {
 		fr.vals[x] = u.sliceOp(fr, st, x)
 	case *ssa.Extract:
 		fr.vals[x] = u.value(fr, x.Tuple).(Tuple)[x.Index]
+	case *ssa.Range:
+		// range over a string: the iterator is a hidden cell holding the byte position
+		if !isString(x.X.Type()) {
+			panic(u.errf("range over %s is outside the subset", x.X.Type()))
+		}
+		g := u.rangeCell(x)
+		st.cells[g] = u.m.IxConst(0)
+		fr.vals[x] = &rangeIter{cell: g, str: u.term(fr, x.X)}
+	case *ssa.Next:
+		it, ok := u.value(fr, x.Iter).(*rangeIter)
+		if !ok || !x.IsString {
+			panic(u.errf("Next over a non-string iterator is outside the subset"))
+		}
+		// Abstraction of string iteration (sound over-approximation): the next rune
+		// starts at the current position; it is some rune of 1..4 bytes that fits in
+		// the string; an ASCII byte decodes to itself with width 1.
+		pos := st.cells[it.cell].(*Term)
+		ln := m.SeqLen(it.str)
+		okT := m.IxLt(pos, ln)
+		w := tb.Fresh("rangewidth", SInt)
+		r := tb.Fresh("rangerune", SInt)
+		c0 := m.SeqAt(it.str, pos)
+		g := tb.And(st.guard, okT)
+		u.assume(g, tb.And(tb.Le(tb.Int(1), w), tb.Le(w, tb.Int(4)), m.IxLe(m.IxAdd(pos, w), ln)))
+		u.assume(g, tb.And(tb.Le(tb.Int(0), r), tb.Le(r, tb.Int(0x10ffff))))
+		u.assume(g, tb.Implies(tb.Lt(c0, tb.Int(0x80)), tb.And(tb.Eq(r, c0), tb.Eq(w, tb.Int(1)))))
+		u.assume(g, tb.Implies(tb.Le(tb.Int(0x80), c0), tb.Le(tb.Int(0x80), r)))
+		st.cells[it.cell] = tb.Ite(okT, m.IxAdd(pos, w), pos)
+		fr.vals[x] = Tuple{okT, pos, r}
 	case *ssa.MakeClosure:
 		fv := &FuncVal{fn: x.Fn.(*ssa.Function)}
 		for _, b := range x.Bindings {
@@ -724,7 +757,7 @@ func (u *Unit) step(fr *Frame, st *State, ins ssa.Instruction) {
 			d := fr.defers[i]
 			u.callDeferred(fr, st, d)
 		}
-	case *ssa.Range, *ssa.Next, *ssa.Select, *ssa.Send, *ssa.Go:
+	case *ssa.Select, *ssa.Send, *ssa.Go:
 		panic(u.errf("%T is outside the subset", ins))
 	case *ssa.SliceToArrayPointer:
 		panic(u.errf("slice to array pointer is outside the subset"))
@@ -928,6 +961,17 @@ func (u *Unit) equal(st *State, a, b Val, t types.Type, pos token.Pos) *Term {
 		}
 		pa, ok1 := a.(*Ptr)
 		pb, ok2 := b.(*Ptr)
+		// an executor-level pointer (address of a local, field or element) is never nil
+		if ok1 && bok {
+			if v, isLit := bt.intLit(); isLit && v.Sign() == 0 {
+				return tb.False()
+			}
+		}
+		if ok2 && aok {
+			if v, isLit := at.intLit(); isLit && v.Sign() == 0 {
+				return tb.False()
+			}
+		}
 		if ok1 && ok2 && pa.kind == pCell && pb.kind == pCell {
 			return tb.Bool(pa.cell == pb.cell)
 		}
@@ -1076,10 +1120,15 @@ func (u *Unit) typeAssert(fr *Frame, st *State, x *ssa.TypeAssert) Val {
 	tb := m.tb
 	v := u.term(fr, x.X)
 	if _, isIface := x.AssertedType.Underlying().(*types.Interface); isIface {
-		u.noteHavoc("type assertion to interface")
 		if x.CommaOk {
-			return Tuple{v, tb.Fresh("assertok", SBool)}
+			// ok is a function of the dynamic type tag; which known concrete types
+			// implement the interface is decided by the type checker (ImplementsAxioms)
+			name := "impl_" + sanitize(types.TypeString(x.AssertedType, nil))
+			m.UF(name, SBool, SInt)
+			m.ifaceAsserts[name] = x.AssertedType.Underlying().(*types.Interface)
+			return Tuple{v, tb.App(name, SBool, m.IfaceTag(v))}
 		}
+		u.noteHavoc("type assertion to interface")
 		u.oblige("assert-type", "", st, tb.False(), x.Pos(), "type assertion to interface type")
 		return v
 	}
@@ -1347,4 +1396,23 @@ func (u *Unit) callAsserts(fr *Frame, st *State, b *ssa.BasicBlock) {
 		g := u.evalIn(env, cl)
 		u.oblige("assert", strings.TrimPrefix(cl.at, "call:")+"-"+labelOr(cl, ats), st, g, token.NoPos, cl.text)
 	}
+}
+
+
+// rangeIter is the executor-level value of a string range iterator.
+type rangeIter struct {
+	cell *ghostCell
+	str  *Term
+}
+
+func (u *Unit) rangeCell(x *ssa.Range) *ghostCell {
+	if u.rangeCells == nil {
+		u.rangeCells = map[*ssa.Range]*ghostCell{}
+	}
+	g, ok := u.rangeCells[x]
+	if !ok {
+		g = &ghostCell{name: "rangepos_" + x.Name(), typ: types.Typ[types.Int]}
+		u.rangeCells[x] = g
+	}
+	return g
 }
